@@ -189,9 +189,12 @@ func (h *histCtx) step(o *Op) {
 		for _, f := range j.Findings {
 			if f.Property == h.cfg.Property {
 				mine = true
+				h.r.Count("violations_"+f.Key, 1)
+				if h.r.Get("violations_"+f.Key) > 3 {
+					continue // three full reports per shape; the counter keeps the total
+				}
 				h.r.Violation(f.Key, f.What+"  | history "+h.id+" N0="+fmt.Sprint(h.n0)+", last op: "+h.log[len(h.log)-1],
 					map[string]interface{}{"history": h.id, "genesis_validators": h.n0, "hostile_spellings": m.Hostile, "finding": f, "operations": h.log})
-				h.r.Count("violations_"+f.Key, 1)
 			}
 		}
 		if os.Getenv("VERIF_GOVDEBUG") != "" {
